@@ -422,7 +422,12 @@ func (g *c06gen) node(depth int) gen.Node {
 	g.loops++
 	f.Body = append([]gen.Node{tx("(" + id + ":"), pr(nm(f.Val))}, g.body(depth-1)...)
 	if g.loops > 1 && r.Intn(2) == 0 {
-		f.Body = append(f.Body, tx("^"), pr(attr(attr(nm("loop"), "parent"), loopMeta[r.Intn(4)])))
+		// loop.parent, loop.parent.parent ... as far out as there are unfiltered loops
+		var rec gen.Expr = nm("loop")
+		for up := 1 + r.Intn(g.loops-1); up > 0; up-- {
+			rec = attr(rec, "parent")
+		}
+		f.Body = append(f.Body, tx("^"), pr(attr(rec, loopMeta[r.Intn(len(loopMeta))])))
 	}
 	f.Body = append(f.Body, tx(")"))
 	g.loops--
